@@ -18,6 +18,12 @@ type route struct {
 	general bool
 	scope   bool   // the body runs inside a function: cannot follow / be followed by another scope route
 	control string // "" normal (copy must be independent) | "ref" | "handle" (write-through expected)
+	// exprBody: the copy lives inside a single-expression body (arrow function): snapshots and
+	// mutations are printed as elements of one list expression instead of statements
+	exprBody bool
+	// late: in the quick tier the route is enumerated alone and as the FIRST link of a chain; as the
+	// second link of a chain only in the thorough tier (keeps the quick chain wave inside its budget)
+	late bool
 	origin  func(u int) (setup, lv string)
 	// originBuild: the original lives where only the route's own code can build it (a static local);
 	// lv is then a read-only expression (a call), snapshotted but never mutated
@@ -28,6 +34,8 @@ type route struct {
 const prelude = `class O { public $p = null; public $q = 0; }
 class H { public $p = null; public function get() { return $this->p; } }
 function idf($x) { return $x; }
+class SP { public static $o1 = null; public static $q1 = null; public static $q2 = null; public static $q3 = null; }
+function snapx($tag, $vals) { echo $tag; foreach ($vals as $v) { echo "|", json_encode($v), "~", serialize($v); } echo "\n"; return 0; }
 `
 
 func snapLine(tag string, live []string) string {
@@ -45,6 +53,27 @@ func flat(name string, general bool, origin func(u int) (string, string), stmt f
 		code, dst := stmt(u, live[src])
 		return code, "", append(append([]string{}, live...), dst)
 	}}
+}
+
+// snapExpr is snapLine as one expression (an element of an arrow function's list body).
+func snapExpr(tag string, live []string) string {
+	return fmt.Sprintf("snapx(\"%s\", [%s]),\n", tag, strings.Join(live, ", "))
+}
+
+// isStatic: a static property is reachable by the same text from every scope.
+func isStatic(lv string) bool { return strings.HasPrefix(lv, "SP::") }
+
+// baseVar returns the variable an lvalue starts with ("$c1[1]" -> "$c1"), "" if it does not start with one.
+func baseVar(l string) string {
+	if !strings.HasPrefix(l, "$") {
+		return ""
+	}
+	for i := 1; i < len(l); i++ {
+		if !(l[i] == '_' || l[i] >= 'a' && l[i] <= 'z' || l[i] >= '0' && l[i] <= '9') {
+			return l[:i]
+		}
+	}
+	return l
 }
 
 // isRO: a live name that is a call expression (original reachable only through a function) can be
@@ -65,8 +94,8 @@ func paramRoute(name string, byRef bool) route {
 		var inner []string
 		args := []string{live[src]}
 		for i := range live {
-			if isRO(live[i]) {
-				inner = append(inner, live[i]) // functions are global: the same call works inside f
+			if isRO(live[i]) || isStatic(live[i]) {
+				inner = append(inner, live[i]) // functions / static properties are global: the same text works inside f
 				continue
 			}
 			params = append(params, fmt.Sprintf("&$r%d_%d", u, i))
@@ -85,21 +114,16 @@ func paramRoute(name string, byRef bool) route {
 // reached through a particular call form. The caller's names are visible inside through `global`
 // declarations (so the callee's signature stays plain); the caller also snapshots around the call.
 // call(u, src) returns the statements that perform the call of f<u>.
-func callRoute(name string, general bool, origin func(u int) (string, string), nparams int, call func(u int, src string) string, closure bool) route {
+// form: "func" plain function | "method" / "smethod": f<u> is an instance / static method of class PM<u>.
+func callRoute(name string, general bool, origin func(u int) (string, string), nparams int, call func(u int, src string) string, form string) route {
 	return route{name: name, general: general, scope: true, origin: origin, apply: func(u int, live []string, src int) (string, string, []string) {
 		bases := map[string]bool{}
 		var decl []string
 		for _, l := range live {
-			if isRO(l) {
+			if isRO(l) || isStatic(l) {
 				continue
 			}
-			b := l
-			for i := 1; i < len(l); i++ {
-				if !(l[i] == '_' || l[i] >= 'a' && l[i] <= 'z' || l[i] >= '0' && l[i] <= '9') {
-					b = l[:i]
-					break
-				}
-			}
+			b := baseVar(l)
 			if !bases[b] {
 				bases[b] = true
 				decl = append(decl, b)
@@ -112,15 +136,67 @@ func callRoute(name string, general bool, origin func(u int) (string, string), n
 		inner := append(append([]string{}, live...), fmt.Sprintf("$p%d", u))
 		head := fmt.Sprintf("function f%d(%s) {\n", u, strings.Join(params, ", "))
 		tail := "return 0;\n}\n"
-		if closure {
-			head = fmt.Sprintf("$f%d = function(%s) {\n", u, strings.Join(params, ", "))
-			tail = "return 0;\n};\n"
-		} else if len(decl) > 0 {
+		switch form {
+		case "method":
+			head = fmt.Sprintf("class PM%d {\npublic function f%d(%s) {\n", u, u, strings.Join(params, ", "))
+			tail += "}\n"
+		case "smethod":
+			head = fmt.Sprintf("class PM%d {\npublic static function f%d(%s) {\n", u, u, strings.Join(params, ", "))
+			tail += "}\n"
+		}
+		if len(decl) > 0 {
 			head += "global " + strings.Join(decl, ", ") + ";\n"
 		}
 		pre := snapLine("P", live) + head
 		post := tail + call(u, live[src]) + snapLine("F", live)
 		return pre, post, inner
+	}}
+}
+
+// closureRoute: the copy lives in the scope of a closure.
+//
+//	capture, !arrow   function() use ($v) { ... }     by-value `use`
+//	capture, arrow    fn() => [ ... ]                  automatic by-value capture
+//	!capture          function($p) { ... } / fn($p) => [ ... ]   by-value parameter of a closure
+//
+// via "call": $f(); via "map": array_map($f, [0]) (capture only). Names of the defining scope are
+// seen inside through peek functions (`function gpk() { global $a; return $a; }`, read-only), the
+// defining scope also snapshots around the call (P / F). Capturing needs a plain variable: after a
+// route whose copy is a property / element the chain is not applicable.
+func closureRoute(name string, arrow, capture bool, via string, late bool) route {
+	return route{name: name, general: true, scope: true, exprBody: arrow, late: late, apply: func(u int, live []string, src int) (string, string, []string) {
+		if capture && baseVar(live[src]) != live[src] {
+			return "", "", nil
+		}
+		var decl strings.Builder
+		var inner []string
+		for i, l := range live {
+			if isRO(l) || isStatic(l) {
+				inner = append(inner, l)
+				continue
+			}
+			fmt.Fprintf(&decl, "function gpk%d_%d() { global %s; return %s; }\n", u, i, baseVar(l), l)
+			inner = append(inner, fmt.Sprintf("gpk%d_%d()", u, i))
+		}
+		param, use, arg := fmt.Sprintf("$z%d = 0", u), "", ""
+		if capture {
+			inner = append(inner, live[src])
+			use = " use (" + live[src] + ")"
+		} else {
+			param, arg = fmt.Sprintf("$p%d", u), live[src]
+			inner = append(inner, fmt.Sprintf("$p%d", u))
+		}
+		head := fmt.Sprintf("$f%d = function(%s)%s {\n", u, param, use)
+		tail := "return 0;\n};\n"
+		if arrow {
+			head = fmt.Sprintf("$f%d = fn(%s) => [\n", u, param)
+			tail = "0];\n"
+		}
+		call := fmt.Sprintf("$f%d(%s);\n", u, arg)
+		if via == "map" {
+			call = fmt.Sprintf("array_map($f%d, [0]);\n", u)
+		}
+		return snapLine("P", live) + decl.String() + head, tail + call + snapLine("F", live), inner
 	}}
 }
 
@@ -159,19 +235,51 @@ func routes() []route {
 		flat("fpushstore", true, nil, func(u int, src string) (string, string) {
 			return fmt.Sprintf("$y%d = [0];\narray_push($y%d, %s);\n", u, u, src), fmt.Sprintf("$y%d[1]", u)
 		}),
+		// further stores into an array / a static property
+		late(flat("appendstore", true, nil, func(u int, src string) (string, string) {
+			return fmt.Sprintf("$d%d = [0];\n$d%d[] = %s;\n", u, u, src), fmt.Sprintf("$d%d[1]", u)
+		})),
+		late(flat("skeystore", true, nil, func(u int, src string) (string, string) { // string key into a list container
+			return fmt.Sprintf("$k%d = [0];\n$k%d[\"s\"] = %s;\n", u, u, src), fmt.Sprintf("$k%d[\"s\"]", u)
+		})),
+		late(flat("okeystore", true, nil, func(u int, src string) (string, string) { // string key into a keyed container
+			return fmt.Sprintf("$j%d = [\"j\" => 0];\n$j%d[\"s\"] = %s;\n", u, u, src), fmt.Sprintf("$j%d[\"s\"]", u)
+		})),
+		late(flat("kvlit", true, nil, func(u int, src string) (string, string) {
+			return fmt.Sprintf("$t%d = [\"j\" => 0, \"v\" => %s];\n", u, src), fmt.Sprintf("$t%d[\"v\"]", u)
+		})),
+		late(flat("spropstore", true, nil, func(u int, src string) (string, string) {
+			return fmt.Sprintf("SP::$q%d = %s;\n", u, src), fmt.Sprintf("SP::$q%d", u)
+		})),
+		flat("spropread", false, func(u int) (string, string) { return "", "SP::$o1" }, func(u int, src string) (string, string) {
+			return fmt.Sprintf("$b%d = SP::$o1;\n", u), fmt.Sprintf("$b%d", u)
+		}),
+		// the copy lives in a closure: by-value `use`, arrow-function capture, closure parameter
+		closureRoute("capuse", false, true, "call", false),
+		closureRoute("caparrow", true, true, "call", false),
+		closureRoute("caparrowmap", true, true, "map", true),
+		closureRoute("pclosure", false, false, "call", true),
+		closureRoute("parrow", true, false, "call", true),
+		// by-value parameter of a method
+		late(callRoute("pmethod", true, nil, 1, func(u int, src string) string {
+			return fmt.Sprintf("$pm%d = new PM%d();\n$pm%d->f%d(%s);\n", u, u, u, u, src)
+		}, "method")),
+		late(callRoute("pstaticm", true, nil, 1, func(u int, src string) string {
+			return fmt.Sprintf("PM%d::f%d(%s);\n", u, u, src)
+		}, "smethod")),
 		// by-value parameter reached through other call forms (callee has plain parameters only)
 		callRoute("pspread", true, nil, 2, func(u int, src string) string {
 			return fmt.Sprintf("$x%d = [0];\nf%d(%s, ...$x%d);\n", u, u, src, u)
-		}, false),
+		}, "func"),
 		callRoute("pspreadelem", false, func(u int) (string, string) {
 			return fmt.Sprintf("$x%d = [0, 0];\n", u), fmt.Sprintf("$x%d[0]", u)
-		}, 2, func(u int, src string) string { return fmt.Sprintf("f%d(...$x%d);\n", u, u) }, false),
+		}, 2, func(u int, src string) string { return fmt.Sprintf("f%d(...$x%d);\n", u, u) }, "func"),
 		callRoute("pnamed", true, nil, 2, func(u int, src string) string {
 			return fmt.Sprintf("f%d(p%d: %s);\n", u, u, src)
-		}, false),
+		}, "func"),
 		callRoute("pmap", false, func(u int) (string, string) {
 			return fmt.Sprintf("$x%d = [0];\n", u), fmt.Sprintf("$x%d[0]", u)
-		}, 1, func(u int, src string) string { return fmt.Sprintf("array_map(\"f%d\", $x%d);\n", u, u) }, false),
+		}, 1, func(u int, src string) string { return fmt.Sprintf("array_map(\"f%d\", $x%d);\n", u, u) }, "func"),
 		// `$x = f(...)` where f hands back an array that is STORED somewhere (not a fresh local)
 		{name: "fstatic", originBuild: func(u int, build func(lv string) string) (string, string) {
 			return fmt.Sprintf("function sget%d() {\nstatic $s = null;\nif ($s === null) {\n%s}\nreturn $s;\n}\n", u, build("$s")), fmt.Sprintf("sget%d()", u)
@@ -199,6 +307,8 @@ func routes() []route {
 		}),
 	}
 }
+
+func late(r route) route { r.late = true; return r }
 
 // controls: an explicit reference / a shared object handle — the write MUST show through.
 func controls() []route {
@@ -312,7 +422,13 @@ func (k kase) build() built {
 		if i > 0 && r.scope && rs[0].scope {
 			return built{}
 		}
+		if r.exprBody && i != len(rs)-1 {
+			return built{} // nothing can follow inside a single-expression body
+		}
 		pre, post, inner := r.apply(i+1, live, len(live)-1)
+		if inner == nil {
+			return built{}
+		}
 		sb.WriteString(pre)
 		posts = append([]string{post}, posts...)
 		live = inner
@@ -324,7 +440,14 @@ func (k kase) build() built {
 		models[i] = sh.mk(k.Rot)
 		known[i] = true
 	}
-	sb.WriteString(snapLine("S", live))
+	expr := rs[len(rs)-1].exprBody
+	snap := func() string {
+		if expr {
+			return snapExpr("S", live)
+		}
+		return snapLine("S", live)
+	}
+	sb.WriteString(snap())
 	for j, st := range k.Steps {
 		m, ok := mutByName(st.Mut)
 		if !ok || st.Target < 0 || st.Target >= len(live) || isRO(live[st.Target]) {
@@ -342,8 +465,15 @@ func (k kase) build() built {
 			known[st.Target] = false
 			b.models = append(b.models, "")
 		}
-		fmt.Fprintf(&sb, "try { %s } catch (Throwable $e) { echo \"E|%d\\n\"; }\n", src, j)
-		sb.WriteString(snapLine("S", live))
+		if expr {
+			if strings.HasPrefix(src, "unset(") {
+				return built{} // unset is a statement, not an expression
+			}
+			sb.WriteString(strings.TrimSuffix(src, ";") + ",\n")
+		} else {
+			fmt.Fprintf(&sb, "try { %s } catch (Throwable $e) { echo \"E|%d\\n\"; }\n", src, j)
+		}
+		sb.WriteString(snap())
 	}
 	for _, p := range posts {
 		sb.WriteString(p)
